@@ -351,6 +351,32 @@ def _pool_init(env):
         os.dup2(dn, 2)
 
 
+def library_frames(exc):
+    """Frames of the traceback that lie in the tree under check (innermost last)."""
+    root = repo_root() + os.sep
+    out = []
+    for fs in traceback.extract_tb(exc.__traceback__):
+        if os.path.realpath(fs.filename).startswith(root):
+            out.append(f"{os.path.relpath(os.path.realpath(fs.filename), root)}:{fs.name}")
+    return out
+
+
+def escaped_library_exception(exc, where):
+    """An exception raised inside the library under check escaped into the harness while it was driving a legal
+    scenario.  The harness wraps the calls it expects to fail; anything else that comes out of library code is
+    unexpected behaviour of the library and is reported as a violation (never as a harness error).
+    Returns a Result dict, or None when the exception did not come from library code."""
+    frames = library_frames(exc)
+    if not frames:
+        return None
+    res = Result()
+    res.executions = res.states = res.transitions = 1
+    sig = f"library-raised:{type(exc).__name__}:{frames[-1]}"
+    res.violation(sig, f"{type(exc).__name__}: {exc}\n(raised in {frames[-1]} while {where}; the rest of this work item was not explored)\n{traceback.format_exc()[-1500:]}", dict(kind="escaped-exception", where=str(where)[:500], traceback=traceback.format_exc()[-3000:]))
+    res.caps.append("a work item was cut short by an exception escaping from the library")
+    return res.to_dict()
+
+
 def _pool_call(args):
     modname, fname, item = args
     try:
@@ -364,6 +390,14 @@ def _pool_call(args):
     except HarnessError as e:
         return ("harness", f"{e}\n{traceback.format_exc()}")
     except BaseException as e:  # noqa
+        try:
+            d = escaped_library_exception(e, f"{modname}.{fname}({repr(item)[:300]})")
+        except Exception:  # noqa
+            d = None
+        if d is not None:
+            if "found" in getattr(e, "__dict__", {}):
+                pass
+            return ("ok", d if fname != "explore_level" else dict(res=d, found=[], shape=item["shape"]["name"], first=()))
         return ("harness", f"worker crashed on {item!r}: {e!r}\n{traceback.format_exc()}")
 
 
